@@ -410,6 +410,16 @@ func main() {
 	// the #2286 clamp of subcompact applies to every compaction while a rewrite is in flight (C15)
 	facts = append(facts, fact{"cond_subcompact_gc_clamp", "op", ifCondsWith("levels.go", "levelsController", "subcompact", "gcActive"), "levels.go:levelsController.subcompact [conditions of the if statements mentioning gcActive]"})
 	facts = append(facts, fact{"cond_subcompact_gc_clamp_inner", "op", ifCondsWith("levels.go", "levelsController", "subcompact", "gcMax"), "levels.go:levelsController.subcompact [condition of the if that lowers discardTs to gcDiscardTs]"})
+	// compactStatus (C14 / C12, BadgerModel/CompactStatus.lean): the two overlap tests of compareAndAdd, the
+	// condition under which delete removes nextRange, and the being-compacted filter of fillTablesL0ToL0
+	facts = append(facts, fact{"cond_caa_tests", "op", ifCondsWith("compaction.go", "compactStatus", "compareAndAdd", "overlapsWith"), "compaction.go:compactStatus.compareAndAdd [conditions of the if statements calling overlapsWith, in order]"})
+	facts = append(facts, fact{"cond_cstatus_delete_next", "op", ifCondsWith("compaction.go", "compactStatus", "delete", "nextRange"), "compaction.go:compactStatus.delete [condition under which nextRange is removed]"})
+	l0l0Skip := "no"
+	if firstPos("levels.go", "levelsController", "fillTablesL0ToL0", "_, beingCompacted := s.cstatus.tables[t.ID()]; beingCompacted") >= 0 {
+		l0l0Skip = "yes"
+	}
+	facts = append(facts, fact{"has_l0l0_being_compacted_skip", "op", l0l0Skip, "levels.go:levelsController.fillTablesL0ToL0 [tables of running compactions are skipped]"})
+	facts = append(facts, fact{"ord_caa_tests_appends", "op", before("compaction.go", "compactStatus", "compareAndAdd", "nextLevel.overlapsWith(cd.nextRange)", "thisLevel.ranges = append"), "compaction.go:compactStatus.compareAndAdd [both tests before the first append]"})
 	facts = append(facts, fact{"ord_flush_manifest_wal", "op", before("levels.go", "levelsController", "addLevel0Table", "manifest.addChanges", "tryAddLevel0Table"), "levels.go:addLevel0Table [manifest record vs publishing the table]"})
 	facts = append(facts, fact{"ord_compact_manifest_replace", "op", before("levels.go", "levelsController", "runCompactDef", "manifest.addChanges", "replaceTables"), "levels.go:runCompactDef [manifest vs replaceTables]"})
 	facts = append(facts, fact{"ord_compact_replace_delete", "op", before("levels.go", "levelsController", "runCompactDef", "replaceTables", "deleteTables"), "levels.go:runCompactDef [replaceTables vs deleteTables]"})
